@@ -1234,9 +1234,32 @@ bool Message :: BytesMightContainFlattenedMessage(const uint8 * bytes, uint32 nu
    return (numEntries <= maxPossibleEntries);
 }
 
+namespace {
+// Keeps track of how deeply nested the current thread's call to Message::Unflatten() is
+class UnflattenNestGuard
+{
+public:
+   UnflattenNestGuard(uint32 & count) : _count(count) {_count++;}
+   ~UnflattenNestGuard() {_count--;}
+
+private:
+   uint32 & _count;
+};
+}  // end anonymous namespace
+
 status_t Message :: Unflatten(DataUnflattener & unflat)
 {
    TCHECKPOINT;
+
+   // Unflattening a sub-Message calls this method recursively, so we need to bound the recursion or a
+   // buffer containing a few hundred kilobytes of deeply-nested sub-Messages could overflow our stack.
+   MUSCLE_THREAD_LOCAL_OR_STATIC uint32 _unflattenNestCount = 0;
+   const UnflattenNestGuard nestGuard(_unflattenNestCount);
+   if (_unflattenNestCount > MUSCLE_MAX_MESSAGE_NESTING_DEPTH)
+   {
+      LogTime(MUSCLE_LOG_DEBUG, "Message %p:  sub-Messages are nested too deeply (limit is %i)\n", this, (int) MUSCLE_MAX_MESSAGE_NESTING_DEPTH);
+      return B_BAD_DATA;
+   }
 
    const uint32 messageProtocolVersion = unflat.ReadInt32();
    if (muscleInRange(messageProtocolVersion, (uint32)OLDEST_SUPPORTED_PROTOCOL_VERSION, (uint32)CURRENT_PROTOCOL_VERSION) == false)
